@@ -42,12 +42,14 @@ func setup4(args ...string) (handler.Handler4, error) {
 
 		route := &dhcpv4.Route{}
 		_, route.Dest, err = net.ParseCIDR(fields[0])
-		if err != nil {
+		if err != nil || route.Dest.IP.To4() == nil {
+			// option 121 can only carry IPv4 routes; an IPv6 one would panic when
+			// the first reply is serialized
 			return Handler4, errors.New("expected a destination subnet, got: " + fields[0])
 		}
 
 		route.Router = net.ParseIP(fields[1])
-		if route.Router == nil {
+		if route.Router.To4() == nil {
 			return Handler4, errors.New("expected a gateway address, got: " + fields[1])
 		}
 
